@@ -1,4 +1,136 @@
-// unit `lww` -- the MAP-ENTRY side of integration (header comment is completed at the end of the file's development)
+// unit `lww` -- the MAP-ENTRY side of integration: what makes a key of a map (or an XML attribute) a causal last-writer-wins
+// register.  Serves C05 (KERNEL ONLY) -- mechanisms named by the property:
+//   (m1) "new entry is created right of the current one (origin = current entry) -- Map::insert / Xml::insert_attribute"
+//   (m2) "right-most wins, overridden left is deleted; non right-most arrivals are deleted -- integrate_item (parent_sub branch),
+//        Item::needs_deletion"
+//   (m3) "recursive deletion of nested content -- TransactionMut::delete"            [pointer code: NOT decided, see ASSUMPTION D]
+// What IS per-call is stated as a contract of the real code for ALL states; what needs more than one call is stated as pure
+// theorems over those contracts and over QUOTED clauses of unit yata (never re-proved).  Convergence in general is NOT claimed.
+//
+// THE VIEW.  A key k of a branch is a CHAIN of entry items linked by `.left` / `.right`; `parent.map[k]` points at one of them.
+//     K = chain_of(map, k) = lefts(map[k]) = [leftmost(map[k]), .., map[k].left, map[k]]     (list order; empty: key never written)
+//   -- unit mapread reads `map[k]` and its tombstone flag only; unit yata's `first_conflict` for an item without left neighbour is
+//   K[0] = leftmost(map[k]), its list L = rights(K[0]).  The new item x is a separate value (`item`), `item_ptr` its handle.
+//     p = pos_after(K, item.left) = 0 if item.left is None, i + 1 if item.left points at K[i]
+//   is the position conflict resolution chose (yata P1: final(self).left == place(L, left0, c)): x goes between K[p-1] and K[p];
+//   p == |K| means right-most.
+//
+// FUNCTIONS / REGIONS UNDER CONTRACT (real text, re-extracted on every run)
+//  (A) Item::needs_deletion (whole)        r == (parent.item is a tombstone) || (parent_sub is Some && right is Some)        [exact]
+//  (B) map_insert_pos            region of Map::insert (`let pos = { .. }`):   pos.left == map[key] (None for a key never written),
+//      xml_insert_attribute_pos  region of Xml::insert_attribute (same block)  pos.right None, parent = this branch, index 0
+//      create_item_origin        region of TransactionMut::create_item:  left == pos.left, right == pos.right,
+//                                origin == last id of pos.left (None without left)        [requires item_ok: block invariant]
+//      create_item_block         region of create_item (`let mut block = Item::new(..)?`): the constructor gets exactly (id, left,
+//                                origin, right, right origin = id of right (None without), pos.parent, parent_sub, content)
+//      Branch::remove (whole), Map::remove (whole), Xml::remove_attribute (whole): exactly ONE `delete`, of the CURRENT entry
+//                                item map[key] (none for a key never written); no link written -- a removal creates no item;
+//                                Branch::remove reports the value `get` returned
+//      Item::last_id, Item::len, Item::id, Item::is_deleted, ID::new, ItemFlags::{check, is_deleted, is_linked}, MapRef::as_ref,
+//      XmlElementRef::as_ref (whole, accessors)
+//  (C) regions of TransactionMut::integrate_item (R18 statement regions; relations c1_post / c2_post / c3_post are ALSO their
+//      ensures clauses, repeated clause by clause)
+//      lww_reconnect   (C1) `if let Some(mut left) = item.left { .. } else { item.right = .. }` (BOTH branches):  only item.right
+//                      changes; with a left neighbour l: item.right == l.right, ONE link write l.right := x; an ENTRY item without
+//                      left neighbour: item.right == the LEFT-MOST item of its key's chain (None for a new key), nothing written;
+//                      a LIST item without left: item.right == old parent.start, parent.start := x.  Nothing is deleted.
+//      lww_walk_step   (C1, step) the BODY of the walk loop: goes on -- to `.left` -- iff there is a left neighbour
+//      lww_publish     (C2) `if let Some(mut right) = item.right { right.left = .. } else if let Some(parent_sub) = .. { .. }`:
+//                      NOT right-most: ONE link write right.left := x, map and deletion log untouched;  right-most ENTRY item:
+//                      map == old.insert(key, x), deletion log gains exactly item.left (nothing without left); else nothing
+//      lww_final_delete (C3) `if item.needs_deletion(parent) { self.delete(item_ptr); }`: log gains x iff needs_deletion
+//  COMPOSED (pure, over the three relations; theorem_integrate_entry / theorem_integrate_entry_is_step) for an ENTRY item, under
+//      H1 H4 H5 below:  0 <= p <= |K|;  x.left / x.right are K[p-1] / K[p];  the link writes are EXACTLY the doubly-linked-list
+//      insertion (lemma_link_insert: every heap that held K holds K.insert(p, x) afterwards);  map[k] is the right-most item of
+//      the new chain (x iff p == |K|, else unchanged);  the deletion log gained EXACTLY
+//          step_log(K, x, p, pd) = [K.last] if p == |K| > 0   ++   [x] if p < |K| or the parent is deleted (pd);   nothing else.
+//      theorem_local_write: (B) + quoted yata P4 => a local write arrives at p == |K|: it becomes map[k], exactly the value it
+//      overrides is deleted.
+//
+// THE INVARIANT  chain_lww(s) := s.cur == last(s.chain)  &&  every item of s.chain except the last is in s.dead
+//   over KeyState { chain: ids of K, cur: id of map[k], dead: tombstones }.  `step(s, x, p, pd)` is the composed contract read with
+//   ASSUMPTION D about `TransactionMut::delete(y)` (pointer code, (m3), NOT decided): it sets the tombstone of y and -- if y holds
+//   a nested type -- of the items of that type's subtree, which are not items of this chain; of nothing else; tombstones are never
+//   cleared.  ONLY THE FIRST HALF IS USED (dead' = dead + the logged ids, on the items of the chain).  Also assumed between the
+//   regions: integrate_item touches neither the chain's links, nor parent.map, nor the tombstone of the parent's own item
+//   (`integrate_content` marks x itself for Deleted content: more tombstones, the invariant only needs a lower bound).
+//     lemma_step_preserves_lww    chain_lww(s) ==> chain_lww(step(s, x, p, pd)); x is deleted by its own integration iff
+//                                 p < |K| or pd; H1 carries over.   lemma_kill_preserves_lww: a removal (`kill`) too.
+//     theorem_run                 for EVERY schedule of integrations / removals from a wf state: wf at the end, and the state is
+//                                 the NORMAL FORM of the final chain: cur = its last item, dead = old + all non-last + removed
+//     theorem_outcome_is_a_function_of_the_chain   two schedules with the same final chain and the same removals end in the same
+//                                 state (same map[k], same tombstones, same value): per-key convergence REDUCES to convergence of
+//                                 the list (C01; for two concurrent items unit yata L2 / L3)
+//  (D1) theorem_d1_overwritten_is_buried + theorem_d1_never_resurfaces.  QUOTED yata "(P1) PLACEMENT 0 <= c <= e <= r <= |L| and
+//       final(self).left == place(L, old(self).left, c)": a write whose origin is v = K[i] is placed at p = i + 1 + c > i; after
+//       that ONE step v is not map[k] and is deleted (by C2 now, or it already was), and this stays so under every later
+//       integration on the key and every removal: "a value overwritten by an operation that had seen it never resurfaces".
+//  (D2) theorem_d2_concurrent_writes (+ theorem_d2_any_base).  QUOTED yata "(L2) same origin AND same right origin .. x.client <
+//       y.client, ANY base list b: theorem_l2_same_origins_commute: in both delivery orders x ends up BEFORE y" (and L2+ "both
+//       orders give the SAME LIST").  Two writes that both saw v as the current entry have, by (B), the same origin v and no
+//       right origin.  With v still right-most here: both delivery orders end in chain K ++ [lo, hi], map[k] = hi (the HIGHER
+//       client id), dead = old + {v, lo}; hi is deleted by neither integration.  Any base: same chain => same state, lo deleted.
+//  (D3) theorem_d3_write_survives_removal.  A removal deletes the current entry v and creates no item (B); a concurrent write w
+//       has origin v and is placed right of it (P1).  Removal first or write first: same state, map[k] = w, dead = old + {v}; w is
+//       deleted neither by the removal nor by its own integration: "a write concurrent with a removal survives it".
+//   test vector: example_overwrite_then_stale_arrival.   Public-API cross-check of D1-D3 on 3 replicas: units/lww/repro/main.rs.
+//
+// WHAT IS AND IS NOT IMPLIED.  Implied, per call: where a local write goes and what its origin is (m1); exactly which link writes,
+//   map update and deletions ONE integration of an entry item performs, for every chain and position (m2); exactness of
+//   needs_deletion.  Implied by the theorems: preservation of chain_lww, (D1)-(D3) as statements about steps / schedules ON ONE
+//   REPLICA given the positions (which are yata's contract).  NOT implied: that two replicas build the same chain in general (C01,
+//   only yata L2 / L3 for two items); that `delete` does what ASSUMPTION D says, incl. the subtree half ("overwriting or removing
+//   a nested shared type removes its whole subtree"); that H1 / H4 / H5 hold in every reachable state (they are the linking
+//   invariants of the block store; block splitting `ItemPtr::splice` also writes chain links and parent.map and is not here); the
+//   statement at the top of integrate_item that copies `parent_sub` from a neighbour; `Update::integrate` (repair of left / right
+//   from the origins, delete-set application = how a remote removal becomes `delete(v)`); UndoManager redo (`Item::redo`, the
+//   third creator of entry items: it also chooses left = the right-most item, right = None); GC.
+//   NOTE on "no other operation causally follows": the right-most item need not be the causally latest of a chain -- a write that
+//   saw only v, from a HIGHER client id than a concurrent write w1, is placed right of w1 AND of w1's successors (yata: it
+//   passes every item whose origin lies in the scanned range) and wins on every replica (repro: "stale", client 9).  It is
+//   concurrent with all of them, so the property's wording is met.
+//
+// ------------------------------------------------------------------------------------------------------------------
+// LOWERING (R15) AND STAND-IN TYPES (everything not listed is extracted verbatim from /repo)
+//   ItemPtr / BranchPtr  `&'static Item` / `&'static Branch` as in units yata / mapread: READ-ONLY snapshots of the pointees at region
+//                entry (A5: alive; the walk terminates by structural `decreases`).  An immutable value cannot be doubly linked:
+//                `.left` and `.right` are independent chains, related by H4.  Identity of a pointee = its id (H1).
+//   WRITES THROUGH ITEM POINTERS  `right.left = Some(item_ptr)` / `left.right = Some(item_ptr)` are spelled
+//                `*txn.vx_left_of(right) = ..` / `*txn.vx_right_of(left) = ..` (SUB on the text left of `=`, so the stored value
+//                stays real code): the place is a `&mut Option<ItemPtr>` handed out by the abstract recorder, which logs
+//                Write::Left / Write::Right (target id, stored id).  Reads through pointers stay verbatim.
+//   TxnApi       the transaction as an ABSTRACT RECORDER (bodiless trait methods: the contracts hold for EVERY implementation; the
+//                logs are history variables): `self.delete(p)` / `txn.delete(p)` -> `txn.vx_delete(p)` appends p.id to
+//                `deleted()`; `Item::inherit_links(item_ptr, left, self)` -> `txn.vx_inherit_links(..)` (feature `weak`: moves the
+//                LINKED flag / `linked_by` entry; touches no link, tombstone or map entry).  `#[cfg(feature = "weak")]` is
+//                DROPPED (SUB), i.e. the block is verified as if the feature were on, with `is_linked()` unconstrained: the
+//                contract holds with and without the feature.
+//   Item         sliced to id, len, left, right, parent_sub, info, content.  ItemFlags / ITEM_FLAG_* are real.  ItemContent is a
+//                stand-in { last } with `get_last` (value reported by Branch::remove only).  `item: Box<Item>` / `&mut *item_ptr`
+//                is `&mut Item` / `&Item`; `parent: BranchPtr` (a Copy pointer with DerefMut) is `&mut Branch` in C1 / C2.
+//   Branch       sliced to start, map, item.   TypePtr, ItemPosition, MapRef, XmlElementRef, ID: real declarations.
+//   NewItem      records the arguments of `Item::new` (SUB `Item::new` -> `NewItem::new`); `TypePtr::clone` written out.
+//   Str / ClientID / Out / Attrs   opaque.  `&str` -> `&Str`, `Arc<str>` -> `Str`, `K: AsRef<str>` -> `K: AsRefStr` (abstract).
+//   trait Map / trait Xml  default methods emitted as inherent methods of MapRef / XmlElementRef (as in mapread); `this: &'static`
+//                in the two `pos` regions because the lowered BranchPtr is a `&'static Branch`.
+//   OTHER SUBs   `.as_deref()` -> `` (identity on `Option<&Item>`), `BranchPtr::from(self.as_ref())` -> `self.as_ref()`,
+//                INLINE `BranchPtr::from(inner).into()` -> `TypePtr::Branch(inner)` (body of `impl Into<TypePtr> for BranchPtr`
+//                checked), `self.0.deref()` -> `self.0`, `break` -> `return (false, r)` (step region), generics for TxnApi.
+// HEAP ASSUMPTIONS (hypotheses of the composition theorems only -- the region contracts hold for ALL states)
+//   H1  the ids of the members of K are pairwise distinct, and x's id is new          [one block per (client, clock)]
+//   H4  K[i].right is K[i + 1] (by id), the current entry item has no right neighbour [the chain is a well-linked list]
+//   H5  item.left, if any, points AT a member of K                                    [yata P1, given the incoming left is one]
+// TRUSTED (module vx_trusted): `axiom_str_key_model` (A4: Arc<str> is a lawful HashMap key), `Option::<&T>::copied` and
+//   `Option::<T>::replace` (A2, std contracts; same as units yata / awareness).  vstd's specifications of HashMap::{get, insert},
+//   Option::{as_ref, cloned, map, is_some, ?}.  No assume / admit.
+//
+// FINDINGS: none -- the pinned code satisfies every clause for every state; under H1 H4 H5 integration of an entry item preserves
+//   chain_lww.  Looked at on purpose: an item with left Some and right None (its left IS the current entry under H4 + H5: it is
+//   the one deleted); `parent.map.insert` is reached only with item.right None; `needs_deletion` runs after `right` is final.
+//   OBSERVATIONS (no defect on reachable states): (1) if H5 fails -- an entry item whose left neighbour is a LIST item of the
+//   same parent; the public API always takes left = map[key], so only a hand-crafted update can carry one -- then, by the
+//   contracts of C1 / C2 themselves, the item is linked into the list and, arriving last, becomes map[key] and that LIST item is
+//   deleted; (2) `Branch::remove` calls `delete` on the current entry item even when it already is a tombstone (a no-op there).
 #![allow(unused_imports, unused_variables, unused_mut, dead_code, unused_parens, unused_braces, unused_assignments)]
 use vstd::prelude::*;
 use std::collections::HashMap;
@@ -509,6 +641,55 @@ pub proof fn theorem_integrate_entry(k: Str, ptr: ItemPtr, i0: Item, i1: Item, b
             }
         },
     }
+}
+
+/// A LOCAL WRITE, composed: (B) `Map::insert` / `Xml::insert_attribute` choose left = `map[k]` (the current entry item), right = None;
+/// `create_item` passes them on with origin = last id of `map[k]`, right origin None; QUOTED from unit yata: "(P4) r == !glued(self),
+/// glued := (left is Some(l) && l.right and self.right are the same item (both None, or equal ids)) || ..": for left = `map[k]`
+/// (H4: no right neighbour) and right = None the item is glued, `resolve_conflict` is NOT called and `item.left` stays `map[k]`.
+/// Then the three regions put the item at p = |K|: it becomes `map[k]`, and the deletion log gains exactly the value it
+/// overrides (if any) -- and the item itself only if the parent type is deleted.  For a key never written: left None, nothing
+/// is deleted.
+pub proof fn theorem_local_write(k: Str, pos: ItemPosition, created: (Option<ItemPtr>, Option<ItemPtr>, Option<ID>), ptr: ItemPtr, i0: Item, i1: Item,
+    b0: BranchV, b1: BranchV, b2: BranchV, t0: TxnV, t1: TxnV, t2: TxnV, t3: TxnV)
+    requires
+        // contract of map_insert_pos / xml_insert_attribute_pos
+        pos.left == lookup(b0.map, k),
+        pos.right is None,
+        // contract of create_item_origin
+        created.0 == pos.left && created.1 == pos.right && created.2 == origin_of(pos.left),
+        // the item integrate_item works on (create_item_block: Item::new gets exactly these; (P4): not moved)
+        i0.left == created.0,
+        i0.parent_sub == Some(k),
+        ptr.id == i0.id,
+        entry_pre(chain_of(b0.map, k), i0),
+        c1_post(i0, i1, ptr, b0, b1, t0, t1),
+        c2_post(i1, ptr, b1, b2, t1, t2),
+        c3_post(i1, ptr, b2, t2, t3),
+    ensures ({
+        let c = chain_of(b0.map, k);
+        // the origin is the current entry item (its last id), never anything else
+        &&& created.2 == (if c.len() > 0 { Some(last_id_spec(c.last())) } else { None })
+        &&& pos_after(c, i0.left) == c.len()
+        &&& i1.right is None
+        &&& b2.map == b0.map.insert(k, ptr)
+        &&& t3.deleted == t0.deleted + (if c.len() > 0 { seq![c.last().id] } else { Seq::<ID>::empty() })
+            + (if parent_dead(b0) { seq![i0.id] } else { Seq::<ID>::empty() })
+    }),
+{
+    let c = chain_of(b0.map, k);
+    let s = ids_of(c);
+    theorem_integrate_entry(k, ptr, i0, i1, b0, b1, b2, t0, t1, t2, t3);
+    if b0.map.contains_key(k) {
+        lemma_lefts(b0.map[k]);
+        let i = idx_of(c, c.last());
+        assert(c[c.len() - 1] == c.last());
+        assert(0 <= i < c.len() && c[i] == c.last());
+        if i < c.len() - 1 { assert(c[i].id != c[c.len() - 1].id); }
+        assert(s.last() == c.last().id);
+    }
+    assert(step_log(s, i0.id, c.len() as int, parent_dead(b0)) =~=
+        (if c.len() > 0 { seq![c.last().id] } else { Seq::<ID>::empty() }) + (if parent_dead(b0) { seq![i0.id] } else { Seq::<ID>::empty() }));
 }
 
 // ---- the links as an abstract heap: "the chain is K with the item inserted at p"
@@ -1288,14 +1469,14 @@ pub open spec fn ex_id(client: u64, clock: u32) -> ID {
     ID { client: ClientID(client), clock }
 }
 
-/// key written once by client 1 (a), then overwritten by client 2 (b, arrives right-most), then a STALE write c of client 3 that
-/// had only seen a arrives and is placed between a and b (yata: b's origin a is c's origin, client 2 < 3 ... whatever position
-/// conflict resolution picks left of b): the value stays b, c is deleted on arrival
+/// key written once by client 1 (a), then overwritten by client 3 (b: origin a, arrives right-most); then a STALE write c of client
+/// 2 arrives that had only seen a (origin a, no right origin): yata meets b -- same origin, same right origin, client id 3 not
+/// lower than 2: a `twin`, the scan ends -- and places c between a and b (position 1): the value stays b, c is deleted on arrival
 pub proof fn example_overwrite_then_stale_arrival()
     ensures ({
         let a = ex_id(1, 0);
-        let b = ex_id(2, 0);
-        let c = ex_id(3, 0);
+        let b = ex_id(3, 0);
+        let c = ex_id(2, 0);
         let s0 = KeyState { chain: seq![a], cur: Some(a), dead: ISet::<ID>::empty() };
         let s1 = step(s0, b, 1, false);
         let s2 = step(s1, c, 1, false);
@@ -1305,8 +1486,8 @@ pub proof fn example_overwrite_then_stale_arrival()
     }),
 {
     let a = ex_id(1, 0);
-    let b = ex_id(2, 0);
-    let c = ex_id(3, 0);
+    let b = ex_id(3, 0);
+    let c = ex_id(2, 0);
     let s0 = KeyState { chain: seq![a], cur: Some(a), dead: ISet::<ID>::empty() };
     let s1 = step(s0, b, 1, false);
     let s2 = step(s1, c, 1, false);
@@ -1357,7 +1538,7 @@ impl Item {
     @*/
 
     // (A) exact
-    /*@extract yrs/src/block.rs | impl Item | fn needs_deletion
+    /*@extract yrs/src/block.rs | impl Item | fn needs_deletion | label=Item.needs_deletion
     @ret r
     @sig
         ensures
@@ -1378,6 +1559,18 @@ impl Item {
 @sig
     ensures
         c1_post(*old(item), *final(item), item_ptr, bv(old(parent)), bv(final(parent)), tv(old(txn)), tv(final(txn))),
+        // the same, clause by clause.  FRAME: only `item.right` changes; nothing is deleted here
+        *final(item) == (Item { right: final(item).right, ..*old(item) }),
+        final(txn).deleted() == old(txn).deleted(),
+        // behind a left neighbour: its old right neighbour becomes the item's, its right link the item
+        old(item).left is Some ==> final(item).right == old(item).left.unwrap().right && bv(final(parent)) == bv(old(parent))
+            && final(txn).writes() == old(txn).writes().push(Write::Right(old(item).left.unwrap().id, Some(item_ptr.id))),
+        // an ENTRY item without left neighbour: in front of the LEFT-MOST item of its key's chain (nothing, for a key never written)
+        old(item).left is None && old(item).parent_sub is Some ==> final(item).right == leftmost_opt(lookup(old(parent).map@, old(item).parent_sub.unwrap()))
+            && bv(final(parent)) == bv(old(parent)) && final(txn).writes() == old(txn).writes(),
+        // a LIST item without left neighbour: the new start of the list
+        old(item).left is None && old(item).parent_sub is None ==> final(item).right == old(parent).start && final(parent).start == Some(item_ptr)
+            && final(parent).map@ == old(parent).map@ && final(parent).item == old(parent).item && final(txn).writes() == old(txn).writes(),
 @before 1 `stmt:while`
     let ghost vx_r0 = r;
 @loop 1
@@ -1417,6 +1610,19 @@ impl Item {
 @sig
     ensures
         c2_post(*item, item_ptr, bv(old(parent)), bv(final(parent)), tv(old(txn)), tv(final(txn))),
+        // the same, clause by clause.  NOT right-most: the right neighbour's left link is the item; the map entry is NOT touched and
+        // nothing is deleted here
+        item.right is Some ==> final(txn).writes() == old(txn).writes().push(Write::Left(item.right.unwrap().id, Some(item_ptr.id))),
+        item.right is Some ==> bv(final(parent)) == bv(old(parent)) && final(txn).deleted() == old(txn).deleted(),
+        // RIGHT-MOST entry item: it becomes `map[key]` ...
+        item.right is None && item.parent_sub is Some ==> final(parent).map@ == old(parent).map@.insert(item.parent_sub.unwrap(), item_ptr)
+            && final(parent).start == old(parent).start && final(parent).item == old(parent).item,
+        // ... and the value it overrides -- its left neighbour -- is deleted: exactly that one
+        item.right is None && item.parent_sub is Some && item.left is Some ==> final(txn).deleted() == old(txn).deleted().push(item.left.unwrap().id),
+        item.right is None && item.parent_sub is Some && item.left is None ==> final(txn).deleted() == old(txn).deleted(),
+        // a right-most LIST item: nothing
+        item.right is None && item.parent_sub is None ==> bv(final(parent)) == bv(old(parent)) && final(txn).deleted() == old(txn).deleted(),
+        item.right is None ==> final(txn).writes() == old(txn).writes(),
 @*/
 
 // (C3) `if item.needs_deletion(parent) { self.delete(item_ptr); }`
@@ -1426,6 +1632,11 @@ impl Item {
 @sig
     ensures
         c3_post(*item, item_ptr, bv(parent), tv(old(txn)), tv(final(txn))),
+        // the same, clause by clause: the item itself is deleted iff its parent is deleted or it is an entry item that did not
+        // arrive right-most
+        needs_del(*item, bv(parent)) ==> final(txn).deleted() == old(txn).deleted().push(item_ptr.id),
+        !needs_del(*item, bv(parent)) ==> final(txn).deleted() == old(txn).deleted(),
+        final(txn).writes() == old(txn).writes(),
 @*/
 
 // ---------------------------------------------------------------------------------------------
